@@ -93,7 +93,11 @@ def newInst (c : Cfg β) (s : Fam β) (h i : Nat) : Option (Fam β) :=
 
 /-- the destructor's `for_each` writing `T()` at its offset -/
 def zeroCol (c : Cfg β) (s : Fam β) (i : Nat) : Nat → Nat → Nat → β :=
-  fun k tid o => if k = i / c.num ∧ o = i % c.num ∧ tid < bound s (i / c.num) then c.dflt else s.cell k tid o
+  let b := bound s (i / c.num)
+  let k0 := i / c.num
+  let o0 := i % c.num
+  let old := s.cell
+  fun k tid o => if k = k0 ∧ o = o0 ∧ tid < b then c.dflt else old k tid o
 
 def dropInst (c : Cfg β) (s : Fam β) (h : Nat) : Option (Fam β) :=
   match s.instOf h with
@@ -139,7 +143,8 @@ def localAt (c : Cfg β) (s : Fam β) (t h j : Nat) : Option (Fam β × Loc) :=
   else none
 
 def setCell (s : Fam β) (l : Loc) (v : β) : Fam β :=
-  { s with cell := fun k tid o => if k = l.k ∧ tid = l.tid ∧ o = l.off then v else s.cell k tid o }
+  let old := s.cell
+  { s with cell := fun k tid o => if k = l.k ∧ tid = l.tid ∧ o = l.off then v else old k tid o }
 
 /-- `auto& x = local(); x = f(x)` -/
 def updAt (c : Cfg β) (s : Fam β) (t h j : Nat) (f : β → β) : Option (Fam β × Loc) :=
@@ -152,8 +157,11 @@ def forEach (c : Cfg β) (s : Fam β) (h : Nat) : Option (List β) :=
 /-- `for_each` with a mutating callback -/
 def forEachUpd (c : Cfg β) (s : Fam β) (h : Nat) (g : β → β) : Option (Fam β) :=
   (s.instOf h).map (fun i =>
-    { s with cell := fun k tid o =>
-        if k = i / c.num ∧ o = i % c.num ∧ tid < bound s (i / c.num) then g (s.cell k tid o) else s.cell k tid o })
+    let b := bound s (i / c.num)
+    let k0 := i / c.num
+    let o0 := i % c.num
+    let old := s.cell
+    { s with cell := fun k tid o => if k = k0 ∧ o = o0 ∧ tid < b then g (old k tid o) else old k tid o })
 
 /-- the ids `ThreadId::for_each<T>` reports at quiescence: exactly the held ones, ascending (C14) -/
 def aliveTids (s : Fam β) : List Nat := (List.range s.tidEnd).filter (tidHeld s)
